@@ -27,6 +27,7 @@ RULE += (' Also: one manager object used as a decorator (twice) and then entered
 RULE += (' Also: generator functions called with keyword arguments named func/self/args/kwds/gen/cls.')
 RULE += (' Also: generator handlers / clean-ups raising AttributeError, TypeError, KeyError, LookupError, AssertionError, OSError.')
 RULE += (' Also: block exceptions whose instances are falsy (__len__ == 0 / __bool__ False).')
+RULE += (' Also: decorated function called with arguments it does not take (the TypeError is raised inside the context).')
 ASSUMPTIONS = ["contextlib.asynccontextmanager of the running interpreter is the reference",
                "__cause__/__context__ chains and messages are not compared"]
 EXHAUSTIVE = {"quick": True, "thorough": True}
@@ -121,7 +122,9 @@ def cases(tier, seed, shard, nshards):
     idx = 0
     for pre, handler, after, outcome in itertools.product(PRE, HANDLER, AFTER, OUTCOME):
         for susp in (0, 1):
-            for mode in ("with", "reuse", "decorator", "decorate_then_enter"):
+            for mode in ("with", "reuse", "decorator", "decorate_then_enter", "decorator_badcall"):
+                if mode == "decorator_badcall" and outcome != "normal":
+                    continue  # (the call itself fails: the body's outcome never comes into play)
                 if mode in ("decorator", "decorate_then_enter", "enter_then_decorate") and outcome == "GeneratorExit":
                     continue  # the documented deviation is modelled for the with-statement form only
                 if mode in ("decorate_then_enter", "enter_then_decorate") and \
@@ -248,6 +251,10 @@ def trial(factory, case):
                 raise exc
             return "body-result"
 
+        if case.get("mode") == "decorator_badcall":
+            # the decorated function is called with arguments it does not take: that call happens INSIDE the context
+            # (``async with cm: return await func(*args)``) - the generator is entered and sees the TypeError
+            log.append(("returned", await fn(5, b=6, c=7)))
         log.append(("returned", await fn(5, b=6)))
 
     async def mixed_form(decorate_first):
@@ -277,7 +284,7 @@ def trial(factory, case):
         log.append("after-with")
 
     async def body():
-        if case.get("mode") == "decorator":
+        if case.get("mode") in ("decorator", "decorator_badcall"):
             return await decorated_form()
         if case.get("mode") in ("decorate_then_enter", "enter_then_decorate"):
             return await mixed_form(case["mode"] == "decorate_then_enter")
